@@ -209,7 +209,10 @@ impl fmt::Display for Formatter {
                     }
                     Token::DayOfYearInteger => {
                         write_sep(f, i, &self.format)?;
-                        write!(f, "{:03}", self.epoch.day_of_year().floor() as u16)?
+                        // Count the whole days with integers: a floating point number of days rounds
+                        // the last nanoseconds of a day up to the next day.
+                        let (_, days, _, _, _, _, _, _) = self.epoch.duration_in_year().decompose();
+                        write!(f, "{:03}", days + 1)?
                     }
                     Token::DayOfYear => {
                         write_sep(f, i, &self.format)?;
@@ -280,7 +283,10 @@ impl fmt::Display for Formatter {
                     }
                     Token::DayOfYearInteger => {
                         write_sep(f, i, &self.format)?;
-                        write!(f, "{:03}", self.epoch.day_of_year().floor() as u16)?
+                        // Count the whole days with integers: a floating point number of days rounds
+                        // the last nanoseconds of a day up to the next day.
+                        let (_, days, _, _, _, _, _, _) = self.epoch.duration_in_year().decompose();
+                        write!(f, "{:03}", days + 1)?
                     }
                     Token::DayOfYear => {
                         write_sep(f, i, &self.format)?;
